@@ -167,7 +167,7 @@ def main():
             "thorough_cmd": f"./check {pid} thorough",
             "evidence_file": f"/verif/evidence/{pid}.json",
             "replay_cmd_template": "./check replay {path}",
-            "engine": "kvh",
+            "engine": ("kvfz" if pid == "C17" else "kvh"),
             "level_claimed": {"category": cat, "text": text, "design_ref": ref},
             "level_note": note,
             "technique": tech,
@@ -189,8 +189,10 @@ def main():
             "add_only": True,
         },
         "engines": [
-            {"name": "kvh", "path": "/verif/harness", "serves_properties": sorted(CHECKS.keys()),
-             "kind_free_text": "Rust binary: proptest TestRunner driving byte-tape decoders + interpreters against reference models; sharded over 16 threads; shrinking to replay JSON"},
+            {"name": "kvh", "path": "/verif/harness", "serves_properties": sorted(k for k in CHECKS.keys() if k != "C17"),
+             "kind_free_text": "Rust binary: proptest TestRunner driving byte-tape decoders + interpreters against reference models; sharded over 16 threads; shrinking to replay JSON. Includes the LD_PRELOAD syscall shim (crash-state enumeration, fault injection), the controlled scheduler over a patched parking_lot (/verif/plshim) and the driver for the real kyrodb_server binary built from the working tree"},
+            {"name": "kvfz", "path": "/verif/fz/fuzz", "serves_properties": ["C17"],
+             "kind_free_text": "cargo-fuzz (libFuzzer) targets index_ops and simd_kernels built with AddressSanitizer from the working tree; driven by tools/c17.py (fixed -runs campaigns from the committed seed corpus, evidence from counters dumped by the targets)"},
         ],
         "checks": checks,
         "not_applicable": na,
